@@ -12,8 +12,9 @@
     (harness/cmd/vcheck/c18.go) observes them; this model is the bookkeeping they rest on.
 
     Everything that depends on how the store (or its instance) was opened is a function of a
-    [config]: [CreateDBOptions.Replicate], [NewStoreOptions.MaxHistory], and the instance
-    directory ":memory:" (baseorbitdb/orbitdb.go [NewOrbitDB], cacheleveldown [Load]/[Destroy]). *)
+    [config]: [CreateDBOptions.Replicate], [NewStoreOptions.MaxHistory], the instance
+    directory ":memory:" (baseorbitdb/orbitdb.go [NewOrbitDB], cacheleveldown [Load]/[Destroy]), and
+    [CreateDBOptions.Directory] naming a directory other than the instance's. *)
 From Orbit Require Export Model.Base.
 
 (** * Configurations *)
@@ -30,14 +31,22 @@ Record config := mkCfg {
   (** NewStoreOptions.MaxHistory is set (CreateDBOptions has no such field; a registered store
       constructor can set it): every Load is a limited one (a limited load leaves older entries
       out on purpose and hands nothing to the replicator) *)
-  cf_limited : bool
+  cf_limited : bool;
+  (** CreateDBOptions.Directory names a directory other than the instance's own.  The store's
+      cache is the one of the INSTANCE directory all the same ([createStore]:
+      [loadCache(o.directory, ...)]), and that is what [CacheDestroy] destroys; the option reaches
+      the store ([NewStoreOptions.Directory], kept and never used) and [Open]'s lookup, which
+      loads - and leaves loaded until the instance is closed - an empty cache below the option's
+      directory instead of the database's own ([open_handle]) *)
+  cf_customdir : bool
 }.
 
-Definition cfg_default : config := mkCfg true false false.
+Definition cfg_default : config := mkCfg true false false false.
 
 Definition all_configs : list config :=
-  [mkCfg true false false; mkCfg true false true; mkCfg true true false; mkCfg true true true;
-   mkCfg false false false; mkCfg false false true; mkCfg false true false; mkCfg false true true].
+  flat_map (fun c : bool * bool * bool => let '(r, m, l) := c in [mkCfg r m l false; mkCfg r m l true])
+    [(true, false, false); (true, false, true); (true, true, false); (true, true, true);
+     (false, false, false); (false, false, true); (false, true, false); (false, true, true)].
 
 (** * Mechanism switches
 
@@ -62,11 +71,15 @@ Record switches := mkSw {
   (** cacheleveldown Destroy removes the files OF the database's leveldb directory, and the
       directory if nothing else is in it (true), instead of the whole tree below it (false): the
       cache directory of /orbitdb/<root>/a/b lies inside the one of /orbitdb/<root>/a *)
-  sw_destroy_own_files : bool
+  sw_destroy_own_files : bool;
+  (** cacheleveldown Load hands out the wrapper it registers also when it has just opened the
+      datastore (true), instead of the bare leveldb datastore (false), whose Close closes the
+      leveldb and leaves the wrapper registered *)
+  sw_load_registered : bool
 }.
 
-Definition sw_pinned : switches := mkSw false false false false false false.
-Definition sw_fixed : switches := mkSw true true true true true true.
+Definition sw_pinned : switches := mkSw false false false false false false false.
+Definition sw_fixed : switches := mkSw true true true true true true true.
 
 (** * Signals *)
 Inductive signal :=
@@ -420,6 +433,59 @@ Definition shares_cache (dir : list N) (r1 : N) (p1 : list seg) (r2 : N) (p2 : l
 (** a write on the open database (r2, p2) after database (r1, p1) of the same instance was closed *)
 Definition write_after_sibling_close (dir : list N) (r1 : N) (p1 : list seg) (r2 : N) (p2 : list seg) : outcome result :=
   if shares_cache dir r1 p1 r2 p2 then Err EClosed else Ok RDone.
+
+(** * Where the local data of a database is, and what Drop destroys
+
+    [inst]: the instance's directory, [opt]: the directory of [CreateDBOptions.Directory] ([] =
+    unset).  [createStore] loads the store's cache from the instance directory and hands
+    [cache.Destroy] the instance directory, whatever the option says. *)
+Definition cache_dir (cfg : config) (inst opt : list N) : list N := inst.
+Definition destroy_dir (cfg : config) (inst opt : list N) : list N := inst.
+
+(** does Drop of (root, path) remove the files of the database's own cache? *)
+Definition drop_removes_own (sw : switches) (cfg : config) (inst opt : list N) (root : N) (path : list seg) : bool :=
+  drop_removes sw cfg (destroy_dir cfg inst opt) root path (datastore_key (cache_dir cfg inst opt) root path).
+
+(** * The cache manager's table, and the handle a store is given
+
+    cacheleveldown keeps the loaded caches in a table under [datastore_key]: a wrapper around the
+    leveldb datastore, whose Close closes the leveldb and takes the entry out of the table.
+    [Load] returns the registered wrapper if there is one; otherwise it opens the leveldb, registers
+    a wrapper, and returns that wrapper ([sw_load_registered]) or the bare datastore (before).
+    A store closes the handle it was given ([BaseStore.Close]: [Cache().Close()]). *)
+Inductive tstate :=
+| TAbsent   (* nothing registered for the database *)
+| TLive     (* a wrapper is registered, its leveldb is open *)
+| TStale.   (* a wrapper is registered whose leveldb was closed behind its back *)
+
+Record handle := mkHandle { h_wrapped : bool; h_usable : bool }.
+
+Definition cm_load (sw : switches) (t : tstate) : handle * tstate :=
+  match t with
+  | TAbsent => (mkHandle (sw_load_registered sw) true, TLive)
+  | TLive => (mkHandle true true, TLive)
+  | TStale => (mkHandle true false, TStale)   (* every operation answers "leveldb: closed" *)
+  end.
+
+Definition cm_close (h : handle) (t : tstate) : tstate :=
+  if h_wrapped h then TAbsent else match t with TLive => TStale | x => x end.
+
+(** Is the cache of the instance directory loaded before [createStore] loads it for the store?
+    [Create] loads it for its existence check and for the marker before it calls [Open]; [Open]
+    loads the cache of the directory it looks the database up in: the instance's - unless a
+    Directory option names another one, which is another entry of the table. *)
+Definition lookup_loads_cache (cfg : config) (via_create : bool) : bool :=
+  via_create || negb (cf_customdir cfg).
+
+Definition open_handle (sw : switches) (cfg : config) (via_create : bool) (t : tstate) : handle * tstate :=
+  cm_load sw (if lookup_loads_cache cfg via_create then snd (cm_load sw t) else t).
+
+(** the database opened ([via_create]: through Create), then [n] times closed and opened again
+    from its address with the same options: is the store's cache usable in each incarnation
+    (Load and writes succeed)? *)
+Fixpoint cycle (sw : switches) (cfg : config) (via_create : bool) (n : nat) (t : tstate) : list bool :=
+  let '(h, t1) := open_handle sw cfg via_create t in
+  h_usable h :: match n with O => [] | S k => cycle sw cfg false k (cm_close h t1) end.
 
 (** * Reopening
     the entries a fresh instance on the same directory finds, given the acknowledged ones:
